@@ -697,6 +697,78 @@ func (e *execEngine) query(ws []string) string {
 		return fmt.Sprintf("%s ordered=%d", s.Status, b2i(s.Ordered))
 	case "height":
 		return fmt.Sprint(n.ldg.GetChainMeta().Height)
+	case "prop": // q prop <@creator-n> : the proposal as GetProposal returns it (implementation-only observation)
+		if len(ws) < 2 {
+			return "bad-op"
+		}
+		arg, err := parseArg("s:" + ws[1])
+		if err != nil {
+			return "bad-op"
+		}
+		r := n.view(constant.GovernanceContractAddr.Address(), "GetProposal", arg)
+		if !r.IsSuccess() {
+			return "- ## none"
+		}
+		p := &contracts.Proposal{}
+		if err := json.Unmarshal(r.Ret, p); err != nil {
+			return "- ## undecodable"
+		}
+		var voters []string
+		for addr, b := range p.BallotMap {
+			voters = append(voters, nameOf(addr)+":"+b.Approve)
+		}
+		sort.Strings(voters)
+		var el []string
+		for _, e := range p.ElectorateList {
+			el = append(el, fmt.Sprintf("%s:%d", nameOf(e.ID), e.Weight))
+		}
+		sort.Strings(el)
+		b2i := func(b bool) int {
+			if b {
+				return 1
+			}
+			return 0
+		}
+		lock := "-"
+		if p.LockProposalId != "" {
+			lock = p.LockProposalId
+		}
+		return fmt.Sprintf("- ## status=%s a=%d r=%d init=%d avail=%d special=%d super=%d typ=%s ev=%s obj=%s last=%s strat=%s expr=%s end=%s voters=[%s] electorate=[%s] lock=%s",
+			p.Status, p.ApproveNum, p.AgainstNum, p.InitialElectorateNum, p.AvailableElectorateNum, b2i(p.IsSpecial), b2i(p.IsSuperAdminVoted),
+			p.Typ, p.EventType, strings.ReplaceAll(p.ObjId, " ", "_"), p.ObjLastStatus, p.StrategyType, strings.ReplaceAll(p.StrategyExpression, " ", "_"),
+			strings.ReplaceAll(string(p.EndReason), " ", "_"), strings.Join(voters, ","), strings.Join(el, ","), lock)
+	case "obj": // q obj <appchain|service|role|rule> <id> : governance status of the object (implementation-only)
+		if len(ws) < 3 {
+			return "bad-op"
+		}
+		var r *pb.Receipt
+		switch ws[1] {
+		case "appchain":
+			r = n.view(constant.AppchainMgrContractAddr.Address(), "GetAppchain", pb.String(ws[2]))
+		case "service":
+			r = n.view(constant.ServiceMgrContractAddr.Address(), "GetServiceInfo", pb.String(ws[2]))
+		case "role":
+			arg, err := parseArg("s:" + ws[2])
+			if err != nil {
+				return "bad-op"
+			}
+			r = n.view(constant.RoleContractAddr.Address(), "GetRoleInfoById", arg)
+		case "rule":
+			r = n.view(constant.RuleManagerContractAddr.Address(), "GetMasterRule", pb.String(ws[2]))
+		default:
+			return "bad-op"
+		}
+		if !r.IsSuccess() {
+			return "- ## none"
+		}
+		var m map[string]interface{}
+		if err := json.Unmarshal(r.Ret, &m); err != nil {
+			return "- ## undecodable"
+		}
+		if ws[1] == "role" {
+			return fmt.Sprintf("- ## status=%v type=%v", m["status"], m["role_type"])
+		}
+		return fmt.Sprintf("- ## status=%v", m["status"])
 	case "dumpdiff":
 		// implementation-only: storage keys on which replica i differs from replica 0
 		base := strings.Fields(n.dumpState(e.admInit))
